@@ -119,7 +119,13 @@ class GCPMapping:
         )
 
     def __hash__(self) -> int:
-        return hash((self._crs, self._pix.tobytes(), self._wld.tobytes()))
+        return hash(
+            (
+                self._crs,
+                tuple(self._pix.ravel().tolist()),
+                tuple(self._wld.ravel().tolist()),
+            )
+        )
 
     def __dask_tokenize__(self):
         return (
